@@ -258,3 +258,69 @@ pub fn widening_lattice<
     chk!(nd, "C02.widening_mul.value", ok);
     chk!(nd, "C02.widening_mul.canonical", refm::canonical(r.as_limbs(), BR));
 }
+
+/// overflowing_mul / wrapping_mul on the "unit-limb" sub-domain: every limb of one operand is 0 or 1, the other operand
+/// is FULL, either operand order.  UF layer as above, but here every product is fixed by the axioms 0*x = 0 and 1*x = x,
+/// so the abstraction is exact and counterexamples reproduce natively; reaches limb counts the FULL-domain UF harnesses
+/// do not, and decides the limb-level structure there (zero trimming incl. middle limbs, operand swap, row windows,
+/// carry chains, overflow flag, masking).
+pub fn mul_unit<const B: usize, const L: usize, const W: usize>(nd: &mut Nd) {
+    let mut al = [0u64; L];
+    let mut i = 0;
+    while i < L {
+        al[i] = (nd.u8() & 1) as u64;
+        i += 1;
+    }
+    let a = Uint::<B, L>::from_limbs(refm::masked(al, B));
+    let b: Uint<B, L> = nd.uint();
+    let swap = nd.bool();
+    // (no table: on this sub-domain every product is fixed by the unit axioms, which `umul` also applies to unknown keys)
+    let mut p = [0u64; W];
+    let _ = uf::school::<W>(&mut p, a.as_limbs(), b.as_limbs());
+    let (lo, over) = split::<L, W>(B, &p);
+    cov!(nd, "overflows", over);
+    cov!(nd, "fits-nonzero", !over && !refm::is_zero(&lo));
+    let (x, y) = if swap { (b, a) } else { (a, b) };
+    let (r, o) = x.overflowing_mul(y);
+    chk!(nd, "C02.overflowing_mul.value", refm::eq(r.as_limbs(), &lo));
+    chk!(nd, "C02.overflowing_mul.flag", o == over);
+    let w = x.wrapping_mul(y);
+    chk!(nd, "C02.wrapping_mul.value", refm::eq(w.as_limbs(), &lo));
+}
+
+/// widening_mul on the unit-limb sub-domain (exact, see `mul_unit`)
+pub fn widening_unit<
+    const B1: usize,
+    const L1: usize,
+    const B2: usize,
+    const L2: usize,
+    const BR: usize,
+    const LR: usize,
+    const W: usize,
+>(
+    nd: &mut Nd,
+) {
+    let mut al = [0u64; L1];
+    let mut i = 0;
+    while i < L1 {
+        al[i] = (nd.u8() & 1) as u64;
+        i += 1;
+    }
+    let a = Uint::<B1, L1>::from_limbs(refm::masked(al, B1));
+    let b: Uint<B2, L2> = nd.uint();
+    let mut p = [0u64; W];
+    let _ = uf::school::<W>(&mut p, a.as_limbs(), b.as_limbs());
+    let r: Uint<BR, LR> = a.widening_mul(b);
+    let mut ok = true;
+    let mut i = 0;
+    while i < W {
+        if i < LR {
+            ok &= r.as_limbs()[i] == p[i];
+        } else {
+            ok &= p[i] == 0;
+        }
+        i += 1;
+    }
+    chk!(nd, "C02.widening_mul.value", ok);
+    chk!(nd, "C02.widening_mul.canonical", refm::canonical(r.as_limbs(), BR));
+}
